@@ -264,3 +264,36 @@ func checkPersistUnderLock(p *load.Program, r *kit.Report, rule, pkg, typ string
 		r.Unknown(rule, typ+"/persist-sites", "-", "expected at least %d persisting calls in methods of %s, found %d", floor, typ, n)
 	}
 }
+
+// checkNoReleaseOfCallerLock: an unexported helper that runs with a lock its callers hold (the
+// "caller holds the lock" convention, kit.EntryLocks) never releases that lock itself. Releasing it
+// in the middle (e.g. around a blocking send) breaks the atomicity of whatever the caller is doing
+// across the call — in ProcessHeader: choosing the most-work branch and storing it as the tip.
+func checkNoReleaseOfCallerLock(p *load.Program, r *kit.Report, rule string, keep func(f *ssa.Function) bool) {
+	el := entryLocks(p)
+	k := newKeyer()
+	n := 0
+	for _, f := range pkgFuncs(p, R, H) {
+		held := el[f]
+		if len(held) == 0 || (keep != nil && !keep(f)) || f.Blocks == nil {
+			continue
+		}
+		n++
+		lin := kit.NewLin(f)
+		bad := ""
+		kit.AllInstrs(f, func(in ssa.Instruction) {
+			c, ok := in.(ssa.CallInstruction)
+			if !ok {
+				return
+			}
+			key, mode, op := kit.LockOp(lin, c)
+			if op < 0 && held[key+":"+mode] && bad == "" {
+				bad = key + " is held by every caller of this helper and is released here (" + posOf(p, in) + "): what the callers do across the call is no longer one critical section"
+			}
+		})
+		r.Check(bad == "", rule, k.key(kit.ShortID(kit.FuncID(f))+"/keeps-callers-lock"), posOf(p, f.Blocks[0].Instrs[0]), "the lock held by the callers is never released inside", bad)
+	}
+	if n == 0 {
+		r.Unknown(rule, "helpers/keeps-callers-lock", "-", "no helper with a caller-held lock found")
+	}
+}
